@@ -698,26 +698,34 @@ def run(tier, seed, replay=None):
                              "harness c20.rs (abstraction: probe of get/is_pinned over the case's hash universe, directory scan)",
                              "blake3 crate (vfhash)"]
     r.proof_phase(THEOREMS)
+    if tier == "thorough" and not replay:
+        # independent re-check of the compiled closure of Props/C20.vo
+        rc, out = vf.sh(["coqchk", "-o", "-silent", "-Q", vf.COQ, "Echo", "Echo.Props.C20"], timeout=1200)
+        ok = rc == 0 and "Axioms: <none>" in out
+        r.phase("P1b_coqchk", ok=ok, summary=" ".join(out.split())[-300:])
+        if not ok:
+            r.is_broken("coqchk", out[-1500:])
     if replay:
         d = json.load(open(replay))
         cases = [parse_case(d["replay"]["case"])] if "case" in d.get("replay", {}) else []
     else:
         cases = [parse_case(l) for l in vf.load_corpus(PROP)]
         q = tier == "quick"
-        for i in range(130 if q else 1500):
+        for i in range(130 if q else 3000):
             cases.append(gen_mem(r.rng, big=(i % 10 == 9)))
-        for i in range(130 if q else 1500):
+        for i in range(130 if q else 3000):
             cases.append(gen_disk(r.rng, big=(i % 10 == 9)))
-        for i in range(30 if q else 400):
+        for i in range(30 if q else 800):
             cases.append(gen_disk_every_file(r.rng))
-        for i in range(130 if q else 1500):
+        for i in range(130 if q else 3000):
             cases.append(gen_idx(r.rng, big=(i % 10 == 9)))
-        for i in range(40 if q else 300):
+        for i in range(40 if q else 500):
             cases.append(gen_exp(r.rng))
         cases += list(exhaustive("mem", 2)) + list(exhaustive("disk", 2))
         if not q:
-            # exhaustive small universes: every op sequence of length 3 and 4 (memory) / 3 (disk) over the alphabet
-            cases += list(exhaustive("mem", 3)) + list(exhaustive("mem", 4)) + list(exhaustive("disk", 3))
+            # exhaustive small universes: every op sequence of length 3 and 4 over the alphabets of `exhaustive`
+            cases += (list(exhaustive("mem", 3)) + list(exhaustive("mem", 4)) + list(exhaustive("disk", 3))
+                      + list(exhaustive("disk", 4)))
     try:
         bins = vf.cargo_build(["c20", "vfhash"])
         r.phase("P3_build", ok=True)
